@@ -60,6 +60,12 @@ def _has_key(ex, state, d, k):
     return simp(disj(res))
 
 
+def _both_headers(spec):
+    """the dispatch loop is recognised by its header; both the snapshot form and the live-list form get the invariant
+    (the live-list form cannot satisfy it: a self-unsubscribing handler shifts the remaining handlers)"""
+    return {"iter:list(self._subscriptions[msg.subscription])": spec, "iter:self._subscriptions[msg.subscription]": spec}
+
+
 def build(reg):
     W.build_shapes(reg)
     W.install_message_models(reg)
@@ -78,7 +84,7 @@ def build(reg):
     reg.contract(
         SESS + ".onMessage", name=SESS + ".onMessage<Event>", params={"self": "obj:Session", "msg": "obj:Event"},
         requires=["self._session_id is not None"],
-        modifies=["ghost.invoked", "self._subscriptions", "msg.kwargs"],
+        modifies=["ghost.invoked", "self._subscriptions"],
         ensures=[
             # delivered to exactly the handlers attached at the time the event arrives: once each, in subscription order
             "len(ghost.invoked) == old(len(ghost.invoked)) + old(len(%s))" % SUBS,
@@ -88,15 +94,12 @@ def build(reg):
         # whose UNSUBSCRIBED has not arrived yet is still held: nothing invoked, no error)
         raises={"ProtocolError": "msg.subscription not in self._subscriptions"},
         raises_ensures={"ProtocolError": ["len(ghost.invoked) == old(len(ghost.invoked))"]},
-        loops={"iter:self._subscriptions[msg.subscription]": {"index": "_i", "invariant": [
-            "0 <= _i and msg.subscription in self._subscriptions",
+        loops=_both_headers({"index": "_i", "invariant": [
+            "0 <= _i <= old(len(%s)) and msg.subscription in self._subscriptions" % SUBS,
             "len(ghost.invoked) == old(len(ghost.invoked)) + _i",
-            "forall(j, 0, _i, ghost.invoked[old(len(ghost.invoked)) + j] == old(%s[j].addr))" % SUBS,
-            # handlers not yet reached are still in place
-            "forall(j, _i, old(len(%s)), j < len(%s) and %s[j].addr == old(%s[j].addr))" % (SUBS, SUBS, SUBS, SUBS),
-            "len(%s) <= old(len(%s))" % (SUBS, SUBS)],
-            "modifies": ["ghost.invoked", "self._subscriptions", "msg.kwargs"],
-            "vars": {"subscription": "sym:Subscription", "handler": "sym:HandlerRec"}}},
+            "forall(j, 0, _i, ghost.invoked[old(len(ghost.invoked)) + j] == old(%s[j].addr))" % SUBS],
+            "modifies": ["ghost.invoked", "self._subscriptions"], "preserves": ["msg.kwargs", "msg.args"],
+            "vars": {"subscription": "sym:Subscription", "handler": "sym:HandlerRec"}}),
         **common)
     # ---- _unsubscribe: exactly that subscription is removed and deactivated; UNSUBSCRIBE iff it was the last handler
     L = "self._subscriptions[subscription.id]"
